@@ -47,7 +47,9 @@ class Files(staticfiles.BaseFiles[ASGIApp]):
         if_modified_since: str = ""
         for k, v in scope["headers"]:
             if k == b"if-none-match":
-                if_none_match = v.decode("latin-1")
+                # several lines of the header are one comma-separated list
+                value = v.decode("latin-1")
+                if_none_match = f"{if_none_match}, {value}" if if_none_match else value
             elif k == b"if-modified-since":
                 if_modified_since = v.decode("latin-1")
         filepath = self.ensure_absolute_path(scope["path"])
@@ -79,7 +81,9 @@ class Pages(Files):
         if_modified_since: str = ""
         for k, v in scope["headers"]:
             if k == b"if-none-match":
-                if_none_match = v.decode("latin-1")
+                # several lines of the header are one comma-separated list
+                value = v.decode("latin-1")
+                if_none_match = f"{if_none_match}, {value}" if if_none_match else value
             elif k == b"if-modified-since":
                 if_modified_since = v.decode("latin-1")
         path = scope["path"]
